@@ -139,9 +139,24 @@ def run(tier, seed):
             if rng.random() < 0.2:
                 s = s[:rng.randint(0, len(s))]
             layer = "x224" if all(f[0] != 3 or (len(f) >= 7 and f[4:7] == [2, 0xf0, 0x80]) for f in fs) and rng.random() < 0.5 else "tpkt"
+            if layer == "x224" and rng.random() < 0.35:
+                # one slow-path frame that is not an X.224 data TPDU (wrong header byte): refused, the rest must still come out
+                raws = [f for f in fs if f[0] == 3]
+                if raws:
+                    f = rng.choice(raws)
+                    f[4 + rng.randrange(3)] = rng.choice([0, 0x80, 0xf0, 2, 3, 0xe0, 0xd0])
+                    if f[4:7] == [2, 0xf0, 0x80]:
+                        f[6] = 0
+                    s = [b for f in fs for b in f]
             p = {"id": "r%d" % i, "mode": "read", "layer": layer, "stream": s}
             p.update(rng.choice(schedules(len(s), rng, 2)))
             plans.append(p)
+        # X.224 layer, deterministic: data TPDU, a frame that is not one (each header byte in turn), data TPDUs again
+        for j, bad in enumerate(([3, 0xf0, 0x80], [2, 0xe0, 0x80], [2, 0xf0, 0], [2, 0xf0, 0x81], [0, 0, 0])):
+            s = [3, 0, 0, 9, 2, 0xf0, 0x80, 1, 2] + [3, 0, 0, 9] + bad + [7, 7] + [3, 0, 0, 8, 2, 0xf0, 0x80, 5] + [3, 0, 0, 9] + bad + [8, 8] + [3, 0, 0, 7, 2, 0xf0, 0x80]
+            for sc in ({}, {"cap": 1}, {"chunks": [5, 6, 2]}):
+                p = {"id": "x%d-%d" % (j, len(plans)), "mode": "read", "layer": "x224", "stream": s}
+                p.update(sc); plans.append(p)
         plans.append({"id": "selftest", "mode": "read", "layer": "tpkt", "cap": 2,
                       "stream": [3, 0, 0, 7, 9, 8, 7, 0x40, 4, 1, 2, 0, 2, 3, 0, 0, 3, 3, 0, 0, 5, 1]})
         pp = os.path.join(wd, "plans.ndjson")
